@@ -5,6 +5,7 @@ CONSTANTS
   TolAboveNewton = TRUE
 INVARIANTS
   TypeOK
+  IndInv
   OkMeansConverged
   NotConvergedIsHonest
   GivenIsFinal
